@@ -12,6 +12,11 @@
 mod sweep;
 #[path = "../../../engines/h_mem/src/place.rs"]
 mod place;
+#[path = "../../../engines/h_mem/src/huge.rs"]
+mod huge;
+#[cfg(feature = "watch")]
+#[path = "../../../engines/h_mem/src/watch.rs"]
+mod watch;
 use sweep::*;
 
 extern "C" {
@@ -209,6 +214,136 @@ fn placement_summary(ctx: &place::PCtx, tag: &str) {
     }
 }
 
+fn linked_ops() -> Ops {
+    Ops {
+        memcpy: core::hint::black_box(memcpy as Cpy),
+        memmove: core::hint::black_box(memmove as Cpy),
+        memset: core::hint::black_box(memset as Set),
+        memcmp: core::hint::black_box(memcmp as Cmp),
+        bcmp: core::hint::black_box(bcmp as Cmp),
+    }
+}
+
+// ---- very large sizes on the linked symbols (huge.rs), a few calls per function and power of two
+unsafe fn map_rw(len: usize) -> Option<*mut u8> {
+    use rusl::platform::{MapAdditionalFlags, MapRequiredFlag, MemoryProtection};
+    rusl::unistd::mmap(
+        None,
+        core::num::NonZeroUsize::new(len)?,
+        MemoryProtection::PROT_READ | MemoryProtection::PROT_WRITE,
+        MapRequiredFlag::MapPrivate,
+        MapAdditionalFlags::MAP_ANONYMOUS,
+        None,
+        0,
+    )
+    .ok()
+    .map(|a| a as *mut u8)
+}
+
+#[cfg(not(feature = "watch"))]
+fn huge_sizes() -> u64 {
+    let cap = ((1usize << huge::P_MAX) + 2 * huge::MARGIN + 8192) & !4095;
+    let (Some(d), Some(s), Some(p)) = (unsafe { map_rw(cap) }, unsafe { map_rw(cap) }, unsafe { map_rw(cap) }) else {
+        out(b"@@INCONCLUSIVE mem_probe: could not map the arenas for the large sizes\n");
+        return 0;
+    };
+    let ar = huge::Arenas { d, s, p, cap };
+    unsafe {
+        VIA = "extern C call of the linked symbol";
+        VIA_TAG = "huge-extern-C";
+    }
+    let mut ctx = huge::HCtx::new(linked_ops(), out, "extern C call of the linked symbol", ar, 0x4855_4745);
+    unsafe {
+        ar.init();
+        for p in huge::P_MIN..=huge::P_MAX {
+            ctx.sweep_power(p, 3, 255, progress_tag);
+        }
+    }
+    let mut w = W::new();
+    w.s("@@P huge-extern-C end 0\n");
+    let mut total = 0;
+    for i in 0..5 {
+        total += ctx.cases[i];
+        w.s("@@COUNT cases_").s(FN_NAMES[i]).s(" ").u(ctx.cases[i]).s("\n");
+    }
+    w.s("@@EVAL ").u(total).s("\n@@COUNT cases_L2_huge-extern-C ").u(total).s("\n");
+    w.s("@@DISTINCT L2/huge-sizes-2^20..2^26\n");
+    out(w.bytes());
+    ctx.viols
+}
+
+#[cfg(feature = "watch")]
+mod watcher_variant {
+    use super::*;
+    use core::sync::atomic::{AtomicBool, Ordering};
+    static STARTED: AtomicBool = AtomicBool::new(false);
+    static STOP: AtomicBool = AtomicBool::new(false);
+    #[repr(align(64))]
+    struct Buf([u8; 1024]);
+    static mut DBUF: Buf = Buf([0; 1024]);
+    static mut SBUF: Buf = Buf([0x5A; 1024]);
+
+    pub fn run(iters: u64) -> u64 {
+        let o = linked_ops();
+        let via = "extern C call of the linked symbol, threaded no-libc probe";
+        let mut bad = 0;
+        let mut evals = 0u64;
+        for f in [F_MEMSET, F_MEMCPY, F_MEMMOVE] {
+            let mut w = W::new();
+            w.s("@@P watch ").s(FN_NAMES[f as usize]).s(" 0\n");
+            out(w.bytes());
+            for (ci, &(phase, n)) in watch::CONFIGS.iter().enumerate() {
+                let dst = unsafe { core::ptr::addr_of_mut!(DBUF).cast::<u8>().add(256 + phase) };
+                let src = unsafe { core::ptr::addr_of!(SBUF).cast::<u8>().add(128 + (ci * 3) % 8) };
+                STARTED.store(false, Ordering::Relaxed);
+                STOP.store(false, Ordering::Relaxed);
+                let d_addr = dst as usize;
+                let Ok(th) = tiny_std::thread::spawn(move || unsafe { watch::watcher(d_addr, n, &STARTED, &STOP) }) else {
+                    out(b"@@INCONCLUSIVE mem_probe watch: thread spawn failed\n");
+                    return bad;
+                };
+                while !STARTED.load(Ordering::Acquire) {
+                    core::hint::spin_loop();
+                }
+                unsafe { watch::hammer(&o, f, dst, src, n, iters) };
+                STOP.store(true, Ordering::Relaxed);
+                let Some(mut r) = th.join() else {
+                    out(b"@@INCONCLUSIVE mem_probe watch: watcher thread did not return a result\n");
+                    return bad;
+                };
+                unsafe { watch::final_check(dst as usize, n, &mut r) };
+                evals += 1;
+                if r.lost > 0 {
+                    watch::report(out, via, f, phase, n, &r, iters);
+                    bad += 1;
+                    break;
+                }
+                let mut w = W::new();
+                if r.writes < 2000 {
+                    w.s("@@INCONCLUSIVE mem_probe watch ").s(FN_NAMES[f as usize]).s(": the watcher thread got only ").u(r.writes).s(" writes in\n");
+                } else {
+                    w.s("@@DISTINCT L2/watch/").s(FN_NAMES[f as usize]).s("/dst%8=").u(phase as u64).s("/n=").u(n as u64).s("\n");
+                }
+                out(w.bytes());
+            }
+        }
+        let mut w = W::new();
+        w.s("@@P watch end 0\n@@EVAL ").u(evals).s("\n@@COUNT cases_L2_watch ").u(evals).s("\n");
+        out(w.bytes());
+        bad
+    }
+}
+
+#[cfg(feature = "watch")]
+#[no_mangle]
+pub fn main() -> i32 {
+    tiny_std::println!("mem_probe (threaded watcher variant) start");
+    let bad = watcher_variant::run(600_000);
+    out(b"@@DONE\n");
+    i32::from(bad != 0)
+}
+
+#[cfg(not(feature = "watch"))]
 #[no_mangle]
 pub fn main() -> i32 {
     // the ordinary print path of a no-libc program (formats through core::fmt, copies included)
@@ -295,6 +430,7 @@ pub fn main() -> i32 {
     } else {
         out(b"@@INCONCLUSIVE mem_probe: could not map the guarded regions or install the SIGSEGV handler\n");
     }
+    bad += huge_sizes();
     out(b"@@DONE\n");
     i32::from(bad != 0)
 }
